@@ -320,6 +320,16 @@ impl Ctx {
         }
     }
 
+    /// A memory-safety condition (e.g. a view must lie inside the mapping it borrows from). Unlike
+    /// [`Ctx::require`] a failure is an out-of-bounds outcome and therefore also counts in monitor mode.
+    pub fn require_in_bounds(&mut self, op: impl FnOnce() -> String, ok: bool, case: impl FnOnce() -> Value, detail: impl FnOnce() -> Value) -> bool {
+        self.evals += 1;
+        if !ok {
+            self.violation(&format!("{}/oob", op()), case(), detail());
+        }
+        ok
+    }
+
     /// A condition that must hold; `detail` describes the mismatch.
     pub fn require(&mut self, op: impl FnOnce() -> String, ok: bool, case: impl FnOnce() -> Value, detail: impl FnOnce() -> Value) -> bool {
         self.evals += 1;
